@@ -157,6 +157,7 @@ def run(rep, tier):
     rep.rule("R1", "mirror equivariance of topology tables")
     rep.rule("R2", "psi-family consistency of sign/scale options; f_psi_sign uniformity")
     rep.rule("R3", "definite parity of written fields under psi and fpol reversal")
+    rep.rule("R4", "the radial grid function is odd under psi -> -psi: arm selection does not depend on the sign of psi, each arm maps (-lower,-upper,-grads) to the negated function")
     T = lambda n, s=False: tables.topology(prog, n, s)
     pairs = [("mu(LSN)==USN", T("LSN"), T("USN")),
              ("mu(USN)==LSN", T("USN"), T("LSN")),
@@ -181,8 +182,68 @@ def run(rep, tier):
     rep.ob("R1", "ixseps1 and ixseps2 exchange roles between lower and upper disconnected double null (inner separatrix <-> outer separatrix)", ok, MESH, "", key="ixseps/swap")
     r2(prog, rep)
     r3(prog, rep)
+    r4(prog, rep)
     rep.undecided("numerical equality of mirrored grids; leg tracing order inner/outer by strike-point R (C19)")
     return __doc__
+
+
+def r4(prog, rep):
+    """psi -> -psi negates lower, upper, grad_lower, grad_upper of every radial segment.  The grid
+    must come out negated, so (a) every test that selects an arm of the grid function compares
+    quantities that are unchanged by the joint negation, (b) each arm's function is odd."""
+    from . import c09
+    from ..spacing import SpacingEx
+    gf = c09.grid_func(prog)
+    mod = gf.module
+    ODD = ("lower", "upper", "grad_lower", "grad_upper")
+    n_tests = 0
+    for n in walk_own(gf.node):
+        if not (isinstance(n, ast.If) and isinstance(n.test, ast.Compare) and len(n.test.ops) == 1):
+            continue
+        t = n.test
+        names = {x.id for x in ast.walk(t) if isinstance(x, ast.Name)}
+        if not (names & set(ODD)) or isinstance(t.ops[0], (ast.Is, ast.IsNot)):
+            continue
+        n_tests += 1
+        ctx = Context()
+        ex = FamEx(ctx, mod)
+        env = {k: ctx.sym(k) for k in ODD + ("n",)}
+        envf = {k: (-ctx.sym(k) if k in ODD else ctx.sym(k)) for k in ODD + ("n",)}
+        try:
+            l, r = ex.expr(t.left, dict(env)), ex.expr(t.comparators[0], dict(env))
+            lf, rf = ex.expr(t.left, dict(envf)), ex.expr(t.comparators[0], dict(envf))
+            same = (l - lf).is_zero() and (r - rf).is_zero()
+            mirrored = (l + lf).is_zero() and (r + rf).is_zero() and False  # a flipped inequality would select the other arm
+            ok = same or mirrored
+            detail = "" if ok else "left side %s -> %s, right side %s -> %s under the reversal" % (l.show(80), lf.show(80), r.show(80), rf.show(80))
+        except AlgError as e:
+            ok, detail = False, "test not representable: %s" % e
+        rep.ob("R4", "arm selection `%s` is unchanged by psi -> -psi" % mod.code(t)[:90], ok, gf.site(n), detail, key="gridfunc/test/%s" % mod.code(t)[:90])
+    rep.floor("R4.arm-tests", n_tests, 3)
+    # (b) oddness of each arm
+    for arm in c09.ARMS:
+        label = arm[0]
+        try:
+            ctx, ex, f, sy = c09.build_arm(prog, arm)
+            i = ctx.sym("i")
+            fi = ex.call_closure(f, [i], {})
+            roots = [r_[0] for r_ in getattr(ex, "roots", [])]
+            cons = c09.constraint_value(ex)
+        except (AlgError, PathRaises) as e:
+            rep.ob("R4", "%s: arm extractable" % label, False, gf.site(), str(e), key="gridfunc/odd/%s/extract" % label)
+            continue
+        sub = {k: -ctx.sym(k) for k in ODD}
+        try:
+            ff = fi.subs(sub)
+            ok = (ff + fi).is_zero()
+            detail = "" if ok else "f(-args)+f(args) = " + (ff + fi).residual()[:160]
+            if cons is not None:
+                cf = cons.subs(sub)
+                okc = (cf + cons).is_zero() or (cf - cons).is_zero()
+                rep.ob("R4", "%s: the root-finder constraint keeps its root under psi -> -psi (it is odd or even in the reversed quantities)" % label, okc, gf.site(), "", key="gridfunc/odd/%s/constraint" % label)
+        except AlgError as e:
+            ok, detail = False, "not representable: %s" % e
+        rep.ob("R4", "%s: f(i; -lower, -upper, -grads) == -f(i; lower, upper, grads)" % label, ok, gf.site(), detail, key="gridfunc/odd/%s" % label)
 
 
 class FamEx(Extractor):
